@@ -172,16 +172,21 @@ CLAIMED['C18'] = dict(
 
 CLAIMED['C05'] = dict(
     engine='E-cell',
-    text='Rocq theorems for all histories of events and cycles and all identity choices (set.pop nondeterminism): '
+    text=('Rocq theorems for all histories of events and cycles and all identity choices (set.pop nondeterminism): '
+         'C05_end_of_cycle (after EVERY cycle of EVERY history: an instance that is not placed holds no identity, a '
+         'placed instance of a group holds one, every held identity is in [0,count) of the current group size), '
          'C05_invariant / C05_cycle (identity invariant in every reachable state / kept by any cycle), C05_unique (no '
          'two instances of a group hold one identity), C05_offer_sound (every identity on offer is in [0,count) and '
-         'held by nobody), C05_held_nonneg. Partial: the end-of-cycle facts (held identity below the current count, '
-         'placed => holds one, not placed => holds none) are decided by the per-operation correspondence and the '
-         'C05 oracle; the unchanged tree violated the last one in three ways, repaired by fix: commits (see '
-         'known_findings.json).',
-    note=SCHED_NOTE + ' Hypotheses (wf_ops_id): a new instance holds no identity; configured counts are non-negative.',
-    technique='Rocq proof (inductive invariant over primitive transitions, quantified over identity choices) + '
-              'per-operation digest correspondence (cases.v/vm_compute) + oracle',
+         'held by nobody), C05_held_nonneg, C05_cycle_spec. The proof covers every path of the placement loop (skips, '
+         'over-cap removal, renewal and its restore, eviction and its restore, infeasible shapes, schedule-once) and '
+         'the four phases before it; proving it for renewals exposed the defect repaired by fix: 7bb39c9; earlier '
+         'repairs 05b28ff, 892e28c, d5e1071 (known_findings.json).'),
+    note=SCHED_NOTE + ' Hypotheses of the all-histories theorems (wf_ops_all): a new server or instance has a fresh name and vectors of '
+         'the cell dimension, a new instance record is not placed and holds no identity, configured counts are '
+         'non-negative.',
+    technique=('Rocq proof (per-turn specification of the placement loop, loop invariant, partition composition, '
+              'allocation-tree and identity invariants over all histories, quantified over identity choices) + '
+              'per-operation digest correspondence (cases.v/vm_compute) + oracle'),
     ref='DESIGN.md section 7 C05')
 MASTER_NOTE = ('Coq kernel; translator tables_c10.py; in-memory Backend (put overwrites and keeps ctime, delete '
                'recursive, no-op on a missing node); crash = prefix of the write list (checked against a real '
@@ -267,30 +272,40 @@ CLAIMED['C04'] = dict(
     ref='DESIGN.md section 7 C04')
 CLAIMED['C03'] = dict(
     engine='E-cell',
-    text='Rocq theorems on the model, for every cell state: C03_put_guard (whatever puts an instance on a server goes '
-         'through the guard of Server.put: same partition label, all traits of the instance and its allocation, now + '
-         'lease < reboot time, room in every dimension, server-level affinity head-room), C03_fresh_put_only_up / '
-         'C03_eviction_only_up (a fresh placement walk and the eviction scan leave every server that is not up exactly '
-         'as it was), C03_cycle_is_guarded_steps. C03_after_refuted: machine-checked witness that an instance '
-         're-assigned to an allocation of another partition keeps its old server (known finding). Partial: "server '
-         'after <> server before => that put was a fresh or eviction put" is decided by the correspondence (placement '
-         'tuples in every cycle digest) and the C03 oracle on (instance, before, after).',
-    note=SCHED_NOTE,
-    technique='Rocq proof (guard specification, frame lemmas over the placement walk and the eviction scan) + '
-              'refutation witness + per-operation digest correspondence + oracle',
+    text=('Rocq theorems on the model. C03_new_assignment: for every reachable state (any history of the operation alphabet) '
+         'and the cycle run from it, an instance that ends the cycle on a server other than the one it started on is '
+         'on a server that is up and - measured before the cycle - has the partition label of the instance\'s '
+         'allocation, every trait of the instance and of its allocation, and (non-zero lease) a reboot time after '
+         'now + lease; the proof goes through every placing path (Bucket.put walk, eviction scan, restore of an '
+         'eviction, failed renewal). C03_cycle_spec (the same from any state with the invariants), C03_put_guard, '
+         'C03_fresh_put_only_up / C03_eviction_only_up, C03_cycle_is_guarded_steps. C03_after_refuted: machine-checked '
+         'witness that the "after every cycle" half fails on the code as it is (an instance re-assigned to an '
+         'allocation of another partition keeps its old server; known finding).'),
+    note=SCHED_NOTE + ' Hypotheses of the all-histories theorems (wf_ops_all): a new server or instance has a fresh name and vectors of '
+         'the cell dimension, a new instance record is not placed and holds no identity, configured counts are '
+         'non-negative.',
+    technique=('Rocq proof (guard specification, per-turn specification and loop invariant of _find_placements, partition '
+              'composition, invariants over all histories) + refutation witness + per-operation digest '
+              'correspondence + oracle'),
     ref='DESIGN.md section 7 C03')
 CLAIMED['C08'] = dict(
     engine='E-cell',
-    text='Rocq theorems on the model, for every cell state: C08_retention_decision + C08_expired (the instances moved '
-         'off an inactive server are exactly: down server and since + timeout <= now (no timeout: at once); frozen '
-         'server and marked for unscheduling), C08_no_capacity_eviction_meanwhile / C08_nonup_receives_nothing (the '
-         'eviction scan and a fresh placement walk leave every server that is not up exactly as it was), '
-         'C08_blacklisted_skipped. C08_shrink_refuted: machine-checked witness that an identity-group shrink removes '
-         'an instance from a down server inside its retention window (known finding). Partial: the composition over '
-         'the whole cycle is decided by the correspondence (virtual clock ticks at the boundary) and the C08 oracle.',
-    note=SCHED_NOTE,
-    technique='Rocq proof (decision specification, frame lemmas) + refutation witness + per-operation digest '
-              'correspondence + oracle',
+    text=('Rocq theorems on the model, for every reachable state and the cycle run from it: C08_keeps_placement (an '
+         'instance on a server that is down for less than its data-retention time, or frozen and not marked for '
+         'unscheduling, that is not blacklisted, not flagged for renewal, holds an identity valid for the current group '
+         'size and is not ranked beyond the utilisation cap, is on the same server with the same expiry and identity '
+         'after the cycle - the phases leave it alone, nothing evicts it, its own turn passes it over), '
+         'C08_loses_placement (retention run out, or marked for unscheduling on a frozen server: not on that server '
+         'after the cycle), C08_blacklisted_unplaced (a blacklisted instance ends the cycle with no server and no '
+         'identity); a server that is not up receives no new instance (C03_new_assignment). For every cell state: '
+         'C08_retention_decision + C08_expired, C08_no_capacity_eviction_meanwhile / C08_nonup_receives_nothing, '
+         'C08_blacklisted_skipped. C08_shrink_refuted: machine-checked witness that an identity-group shrink removes an '
+         'instance from a down server inside its retention window (known finding; hence the valid-identity premise).'),
+    note=SCHED_NOTE + ' Hypotheses of the all-histories theorems (wf_ops_all): a new server or instance has a fresh name and vectors of '
+         'the cell dimension, a new instance record is not placed and holds no identity, configured counts are '
+         'non-negative.',
+    technique=('Rocq proof (phase-by-phase and loop invariants for one protected instance, partition composition, invariants '
+              'over all histories) + refutation witness + per-operation digest correspondence + oracle'),
     ref='DESIGN.md section 7 C08')
 CLAIMED['C07'] = dict(
     engine='E-cell',
